@@ -3,6 +3,7 @@ C04 — Order accounting and lifetime: nothing lost, no fill after cancel or exp
 (the clause "only when submitted by its owner" is a runner check, see PamsProps/C04R.lean /
 `Pams.Runner`.)
 -/
+import PamsLemmas.SourceTie
 import PamsLemmas.AccountLemmas
 import Mathlib.Data.Nat.Basic
 
@@ -191,5 +192,12 @@ theorem nonvacuous :
     curVol ((Market.init natOps 100 none).runOps natOps demoOps).1 0 = 3 ∧
     curVol ((Market.init natOps 100 none).runOps natOps demoOps).1 2 = 4 ∧
     ((Market.init natOps 100 none).runOps natOps demoOps).1.buys = [] := by decide +kernel
+
+/-- (T) expiry and acceptance guards in the current sources: expiry keys `< time`, `placed_at + ttl <
+time`, and the three guards + the grid test of `_add_order` -/
+theorem source_expiry_and_guards :
+    Pams.Source.opsOf "OrderBook._check_expired_orders" = ["<", "<", "=="] ∧
+    Pams.Source.opsOf "Order.is_expired" = ["is", "is", "<"] ∧
+    Pams.Source.opsOf "Market._add_order" = ["!=", "is not", "is not", "is not", "!=", "!=", "is not"] := by decide
 
 end Pams.C04
